@@ -2,6 +2,8 @@
 //
 //	o<N>   write the next N bytes of the stdout pattern to stdout (one write call)
 //	e<N>   the same for stderr
+//	O<hex> E<hex>  write these literal bytes (hex) to stdout / stderr; they take their place in the stream
+//	       (the pattern continues behind them at the next stream offset)
 //	co ce  close stdout / stderr (later writes to it fail and are lost)
 //	s<ms>  sleep
 //	b<ms>  leave a background descendant behind: it inherits stdout and stderr, writes nothing,
@@ -48,6 +50,17 @@ func main() {
 			buf := make([]byte, n)
 			pat.Fill(buf, s, off[s])
 			w, _ := files[s].Write(buf) // loops over partial writes; fails at once on a closed file
+			off[s] += int64(w)
+		case 'O', 'E':
+			s := 0
+			if tok[0] == 'E' {
+				s = 1
+			}
+			lit, err := hex.DecodeString(arg)
+			if err != nil {
+				os.Exit(96)
+			}
+			w, _ := files[s].Write(lit)
 			off[s] += int64(w)
 		case 'c':
 			if arg == "o" {
